@@ -338,6 +338,20 @@ func runWorker(o workerOpts) *WorkerResult {
 	e.explore(st, e.pathEnded)
 	res.ExploreS = time.Since(t2).Seconds()
 
+	if forkLog {
+		type kv struct {
+			k string
+			v int
+		}
+		var l []kv
+		for k, v := range e.forkSites {
+			l = append(l, kv{k, v})
+		}
+		sort.Slice(l, func(i, j int) bool { return l[i].v > l[j].v })
+		for i := 0; i < len(l) && i < 25; i++ {
+			fmt.Fprintf(os.Stderr, "forksite %6d %s\n", l[i].v, l[i].k)
+		}
+	}
 	r := e.rep
 	res.Obls = sortedObls(r.obls)
 	res.Ends = r.ends
